@@ -17,7 +17,7 @@ ASSUMPTIONS = common.ASSUME_QR + ['empty content with a requested mode is not ju
 REQUIRED = ['evaluations', 'encode_observed', 'symbols_decoded', 'auto_mode_checked', 'requested_mode_honoured',
             'requested_mode_refused', 'two_byte_inputs']
 EXHAUSTIVE = {'thorough': 'all 65,536 two-byte contents with mode None; all 256 one-byte contents'}
-TIMEOUT = {'quick': 900, 'thorough': 7200}
+TIMEOUT = {'quick': 3600, 'thorough': 21600}
 TRAILS = [0x00, 0x3f, 0x40, 0x7e, 0x7f, 0x80, 0xfc, 0xfd, 0xff]
 
 
